@@ -7,6 +7,7 @@ import (
 	"bytes"
 	"compress/flate"
 	"github.com/beevik/etree"
+	"github.com/crewjam/saml/xmlenc"
 	dsig "github.com/russellhaering/goxmldsig"
 )
 
@@ -50,18 +51,86 @@ func verifSignatureOf(el *etree.Element, sign int, keyInfo ...int) *etree.Elemen
 }
 
 func verifMaterialise(d *verifDoc) []byte {
+	doc := etree.NewDocument()
+	doc.SetRoot(verifResponseElement(d))
+	b, err := doc.WriteToBytes()
+	if err != nil {
+		panic(err)
+	}
+	return b
+}
+
+// verifEncryptedAssertion wraps the element the way the IdP does (RSA-OAEP + AES-128-CBC) for test certificate 1+to.
+func verifEncryptedAssertion(el *etree.Element, to int) *etree.Element {
+	doc := etree.NewDocument()
+	doc.SetRoot(el)
+	buf, err := doc.WriteToBytes()
+	if err != nil {
+		panic(err)
+	}
+	encryptor := xmlenc.OAEP()
+	encryptor.BlockCipher = xmlenc.AES128CBC
+	encryptor.DigestMethod = &xmlenc.SHA1
+	data, err := encryptor.Encrypt(verifTestCert(0, 1+to), buf, nil)
+	if err != nil {
+		panic(err)
+	}
+	data.CreateAttr("Type", "http://www.w3.org/2001/04/xmlenc#Element")
+	enc := etree.NewElement("saml:EncryptedAssertion")
+	enc.AddChild(data)
+	return enc
+}
+
+func verifMaterialiseArtifact(d *verifArtifactDoc) []byte {
+	ar := *d.AR
+	ar.Signature = nil
+	build := func() *etree.Element {
+		el := ar.Element()
+		// Element() appends the struct's own (empty) Response: replace it by the document
+		el.RemoveChildAt(len(el.Child) - 1)
+		el.AddChild(verifResponseElement(d.D))
+		return el
+	}
+	el := build()
+	if d.SignAR != 0 {
+		ar.Signature = verifSignatureOf(el, d.SignAR, d.KeyInfo)
+		el = build()
+	}
+	env := etree.NewElement("soap:Envelope")
+	env.CreateAttr("xmlns:soap", "http://schemas.xmlsoap.org/soap/envelope/")
+	body := env.CreateElement("soap:Body")
+	body.AddChild(el)
+	doc := etree.NewDocument()
+	doc.SetRoot(env)
+	b, err := doc.WriteToBytes()
+	if err != nil {
+		panic(err)
+	}
+	return b
+}
+
+func verifResponseElement(d *verifDoc) *etree.Element {
 	r := *d.R
 	r.Assertion = nil
 	r.Signature = nil
+	// the children are built once: encryption draws a fresh key and IV, and the Response signature covers them
+	var children []*etree.Element
+	for i := range d.Assertions {
+		a := *d.Assertions[i].A
+		a.Signature = nil
+		if d.Assertions[i].Sign != 0 {
+			a.Signature = verifSignatureOf(a.Element(), d.Assertions[i].Sign, d.Assertions[i].KeyInfo)
+		}
+		if d.Assertions[i].Encrypt != 0 {
+			children = append(children, verifEncryptedAssertion(a.Element(), d.Assertions[i].Encrypt))
+		} else {
+			children = append(children, a.Element())
+		}
+	}
 	build := func() *etree.Element {
 		el := r.Element()
-		for i := range d.Assertions {
-			a := *d.Assertions[i].A
-			a.Signature = nil
-			if d.Assertions[i].Sign != 0 {
-				a.Signature = verifSignatureOf(a.Element(), d.Assertions[i].Sign, d.Assertions[i].KeyInfo)
-			}
-			el.AddChild(a.Element())
+		for _, c := range children {
+			el.AddChild(c.Copy())
 		}
 		return el
 	}
@@ -70,13 +139,7 @@ func verifMaterialise(d *verifDoc) []byte {
 		r.Signature = verifSignatureOf(el, d.SignResponse, d.KeyInfo)
 		el = build()
 	}
-	doc := etree.NewDocument()
-	doc.SetRoot(el)
-	b, err := doc.WriteToBytes()
-	if err != nil {
-		panic(err)
-	}
-	return b
+	return el
 }
 
 func verifMaterialiseLogout(lr *LogoutResponse, sign int, rootless bool) []byte {
